@@ -19,7 +19,7 @@ impl DimensionsExtractor for SvgDimensionsExtractor {
         for event in svg::open(path, &mut content)? {
             if let Event::Tag(SVG, _, attributes) = event {
                 if let (Some(width_value), Some(height_value)) =
-                    (attributes.get("height"), attributes.get("width"))
+                    (attributes.get("width"), attributes.get("height"))
                 {
                     let width = width_value
                         .parse::<usize>()
